@@ -1,9 +1,12 @@
 ---------------------------- MODULE TraceTxHashes ----------------------------
 (* C32, impl -> spec: recorded single-byte changes of real raw payloads (all kinds); the
-   specification's ByteChangeOk decides every event.                                  *)
+   specification's ByteChangeOk decides every event; and the byte-level non-canonical payload family (duplicated
+   elements of set-like fields) with all pairs inside a group, decided by NonCanonOk / PairOk.                                  *)
 EXTENDS TxHashes, TraceIO
 VARIABLE l
 Ok(ev) == CASE ev.a = "byte" -> ByteChangeOk(ev)
+            [] ev.a = "noncanon" -> NonCanonOk(ev)
+            [] ev.a = "pair" -> PairOk(ev)
             [] OTHER -> FALSE
 TInit == l = 1
 TNext == l <= Len(Rec) /\ (IF Ok(Rec[l]) THEN TRUE ELSE PrintT(<<"BAD", l>>)) /\ l' = l + 1
